@@ -3,6 +3,8 @@ package main
 // `rosvc check --property Cxx --tier quick|thorough`: the command registered in MANIFEST.json.
 
 import (
+	"os/exec"
+	"sync"
 	"encoding/json"
 	"fmt"
 	"os"
@@ -177,6 +179,22 @@ func cmdCheck(repo, prop, tier string) int {
 	var knownLines []string
 	seen := map[string]bool{}
 	os.MkdirAll(filepath.Join(outRoot(), "replays", prop), 0755)
+	// replay: concrete demonstrations (known-finding demos, corpus tests) attributed to the failed obligations are run
+	// against the real code through an overlay; an obligation with a failing demonstration has a failing input
+	{
+		var failed []*Obligation
+		for _, o := range all {
+			if o.Status != "discharged" && o.Status != "broken" {
+				if kf := known.match(prop, o.ID); kf != nil && kf.Status == "open" {
+					continue
+				}
+				failed = append(failed, o)
+			}
+		}
+		if len(failed) > 0 && os.Getenv("ROSVC_NOREPLAY") == "" {
+			replayCorpus(repo, prop, failed, known)
+		}
+	}
 	var boundedList []map[string]interface{}
 	nBounded := 0
 	for _, o := range all {
@@ -339,7 +357,7 @@ func (e *Engine) writeReplay(prop string, o *Obligation, tier string) string {
 	rec := map[string]interface{}{
 		"property": prop, "obligation": o.ID, "function": o.Fn, "kind": o.Kind, "clause": o.Clause, "contract_pos": o.Pos,
 		"status": o.Status, "solver_output": o.Detail, "model": o.Model, "path": o.FailPath, "smt2": smtPath,
-		"variant": o.Variant, "replayed_on_real_code": o.Replayed, "replay_observation": o.ReplayObs,
+		"variant": o.Variant, "replayed_on_real_code": o.Replayed, "replay_observation": o.ReplayObs, "concrete_tests": o.ReplayTests,
 	}
 	data, _ := json.MarshalIndent(rec, "", " ")
 	path := base + ".json"
@@ -348,3 +366,142 @@ func (e *Engine) writeReplay(prop string, o *Obligation, tier string) string {
 }
 
 var notReached = map[string]string{}
+
+// ---------------------------------------------------------------------------
+// Replay corpus: /verif/replay_corpus/index.json lists concrete tests (package rosmar, injected with -overlay, nothing
+// is written to the repository) together with the obligations each one witnesses. When one of those obligations is
+// refuted, the test is run on the tree under check; if it fails, the obligation has a failing input on the real code.
+
+type corpusEntry struct {
+	File        string   `json:"file"`
+	Run         string   `json:"run"`
+	Property    string   `json:"property"`
+	Obligations []string `json:"obligations"`
+	What        string   `json:"what,omitempty"`
+}
+
+func replayCorpus(repo, prop string, failed []*Obligation, known *KnownFile) {
+	var entries []corpusEntry
+	if data, err := os.ReadFile(filepath.Join(verifRoot, "replay_corpus", "index.json")); err == nil {
+		json.Unmarshal(data, &entries)
+	}
+	for _, kf := range known.Findings {
+		f := strings.Fields(kf.Demo)
+		if len(f) == 2 {
+			entries = append(entries, corpusEntry{File: f[0], Run: "^" + f[1] + "$", Property: kf.Property, Obligations: []string{kf.Obligation}, What: kf.What})
+		}
+	}
+	byObl := map[string][]*Obligation{}
+	for _, o := range failed {
+		byObl[o.ID] = append(byObl[o.ID], o)
+	}
+	type runKey struct{ file, run string }
+	done := map[runKey]string{}
+	var mu sync.Mutex
+	var jobs []corpusEntry
+	for _, en := range entries {
+		hit := false
+		for _, id := range en.Obligations {
+			if len(byObl[id]) > 0 {
+				hit = true
+			}
+		}
+		if hit {
+			jobs = append(jobs, en)
+		}
+	}
+	if len(jobs) > 12 {
+		jobs = jobs[:12]
+	}
+	tmp, err := os.MkdirTemp("", "rosvc-replay")
+	if err != nil {
+		return
+	}
+	defer os.RemoveAll(tmp)
+	parallel(len(jobs), 6, func(i int) {
+		en := jobs[i]
+		ov := filepath.Join(tmp, fmt.Sprintf("ov%d.json", i))
+		os.WriteFile(ov, []byte(fmt.Sprintf(`{"Replace":{"%s/zz_rosvc_replay_test.go":"%s"}}`, repo, en.File)), 0644)
+		cmd := exec.Command("go", "test", "-overlay", ov, "-vet=off", "-count=1", "-timeout", "120s", "-run", en.Run, ".")
+		cmd.Dir = repo
+		cmd.Env = append(os.Environ(), "GOFLAGS=-mod=mod", "GOPROXY=off", "GOSUMDB=off", "GOTOOLCHAIN=local")
+		out, err := cmd.CombinedOutput()
+		res := ""
+		if err != nil && strings.Contains(string(out), "--- FAIL") {
+			res = string(out)
+			if len(res) > 3000 {
+				res = res[:3000] + "..."
+			}
+		}
+		mu.Lock()
+		done[runKey{en.File, en.Run}] = res
+		mu.Unlock()
+	})
+	for _, en := range jobs {
+		res := done[runKey{en.File, en.Run}]
+		if res == "" {
+			continue
+		}
+		for _, id := range en.Obligations {
+			for _, o := range byObl[id] {
+				o.Replayed = true
+				o.ReplayTests = append(o.ReplayTests, map[string]string{"file": en.File, "run": en.Run})
+				o.ReplayObs += fmt.Sprintf("concrete test %s -run %s FAILS on the tree under check (go test -overlay, nothing written to the repository):\n%s\n", en.File, en.Run, res)
+			}
+		}
+	}
+}
+
+// cmdReplay re-runs what a replay file records: it prints the failed obligation, the verifier's model and path, and
+// runs the concrete tests listed in the file against the repository (exit 1 if one of them fails there now).
+func cmdReplay(repo, path string) int {
+	data, err := os.ReadFile(path)
+	if err != nil {
+		fmt.Println("cannot read", path, err)
+		return 2
+	}
+	var rec struct {
+		Property   string              `json:"property"`
+		Obligation string              `json:"obligation"`
+		Function   string              `json:"function"`
+		Clause     string              `json:"clause"`
+		Pos        string              `json:"contract_pos"`
+		Status     string              `json:"status"`
+		Model      interface{}         `json:"model"`
+		Path       string              `json:"path"`
+		SMT        string              `json:"smt2"`
+		Tests      []map[string]string `json:"concrete_tests"`
+	}
+	if err := json.Unmarshal(data, &rec); err != nil {
+		fmt.Println("bad replay file:", err)
+		return 2
+	}
+	fmt.Printf("property %s, obligation %s (%s) of %s\n  clause %s: %s\n", rec.Property, rec.Obligation, rec.Status, rec.Function, rec.Pos, rec.Clause)
+	fmt.Printf("verifier's counterexample (symbolic inputs): %v\nfailing path:\n%s\n", rec.Model, rec.Path)
+	if rec.SMT != "" {
+		fmt.Printf("solver query: %s (re-run with: z3-new %s)\n", rec.SMT, rec.SMT)
+	}
+	if len(rec.Tests) == 0 {
+		fmt.Println("no concrete failing input was found for this obligation (no-failing-input-found)")
+		return 0
+	}
+	tmp, err := os.MkdirTemp("", "rosvc-replay")
+	if err != nil {
+		return 2
+	}
+	defer os.RemoveAll(tmp)
+	exit := 0
+	for i, t := range rec.Tests {
+		ov := filepath.Join(tmp, fmt.Sprintf("ov%d.json", i))
+		os.WriteFile(ov, []byte(fmt.Sprintf(`{"Replace":{"%s/zz_rosvc_replay_test.go":"%s"}}`, repo, t["file"])), 0644)
+		cmd := exec.Command("go", "test", "-overlay", ov, "-vet=off", "-count=1", "-timeout", "120s", "-run", t["run"], "-v", ".")
+		cmd.Dir = repo
+		cmd.Env = append(os.Environ(), "GOFLAGS=-mod=mod", "GOPROXY=off", "GOSUMDB=off", "GOTOOLCHAIN=local")
+		out, err := cmd.CombinedOutput()
+		fmt.Printf("== go test -run %s (%s)\n%s\n", t["run"], t["file"], string(out))
+		if err != nil {
+			exit = 1
+		}
+	}
+	return exit
+}
